@@ -516,6 +516,14 @@ class Interp2(Interp):
                 return v
             raw = self.find_class_attr(o.cls, name)
             if raw is None or isinstance(raw, types.MemberDescriptorType):
+                if raw is not None and not self.pure and \
+                        not isinstance(self.find_class_attr(o.cls, '__setattr__'), types.FunctionType):
+                    # a slot of a *mutable* class without a declared shape: its history is
+                    # unknown, so it may be unset or hold anything (e.g. a stale cache)
+                    if self.choice(2) == 1:
+                        v = SSeq(self.fresh_seq('slot_' + name), bytes)
+                        self.st.overlay[(o.t.get_id(), name)] = (o.t, v)
+                        return v
                 self.raise_exc(AttributeError, name)
             return self.bind_class_attr(raw, o, o.cls)
         if isinstance(o, (SSeq, bytes, str)) and not isinstance(o, type):
